@@ -23,6 +23,7 @@ var pointNames = []string{
 	"lookup.retrieved",
 	"op", // yield inserted by the harness between two operations of a task
 	"done",
+	"file.blockread",
 }
 
 // Point ids.
@@ -40,6 +41,7 @@ const (
 	PLookupRetrieved
 	POp
 	PDone
+	PFileBlockRead
 	numPoints
 )
 
@@ -115,6 +117,14 @@ type TaskCtx struct {
 // Yield is a scheduling point inserted by the harness itself, between two
 // operations of a task.
 func (c *TaskCtx) Yield() { c.s.yieldHook("op", nil, 0) }
+
+// Now returns the index of the scheduling step during which the caller runs:
+// the simulator's global event sequence number.  Two tasks never share a
+// step, so "a returned in a step before the one b was invoked in" is exactly
+// the real-time order of the simulated execution.
+//
+//go:norace
+func (c *TaskCtx) Now() int { return c.s.step }
 
 // Event is one scheduling step: task ran from its previous point until it
 // parked at Point.
@@ -197,6 +207,7 @@ type Sched struct {
 	tasks  []*task
 	cur    *task
 	inTask bool
+	step   int
 
 	// lock tracking (LockTrack)
 	mutexHeld map[any]int // obj -> task id
@@ -395,6 +406,7 @@ func (s *Sched) Run(bodies []func(t *TaskCtx)) *RunResult {
 			s.res.Probes.Preemptions++
 		}
 		s.acquire(t)
+		s.step = step
 		s.release(t)
 
 		point, obj, nval, notes, done := s.readMailbox(t)
